@@ -307,6 +307,7 @@ package tubes
 //@ func (s *sender) write(b []byte) (n int, err error)
 //@   property C08 C16
 //@   atomic
+//@   modifies s.buffer, s.buffer[:], s.frames, s.frames[:], s.frameNo, s.unacked, opaque(s)
 //@   ensures err == nil ==> n == len(b) && len(s.buffer) == 0 && s.frameNo - old(s.frameNo) == uint32(len(s.frames) - old(len(s.frames)))
 //@   ensures err != nil ==> s.frameNo == old(s.frameNo) && len(s.frames) == old(len(s.frames)) && len(s.buffer) == 0
 // (C16) once the FIN was sent nothing more is accepted
@@ -419,6 +420,7 @@ package tubes
 //@ func (r *Reliable) Write(b []byte) (n int, err error)
 //@   property C16
 //@   atomic
+//@   modifies r.sender.buffer, r.sender.buffer[:], r.sender.frames, r.sender.frames[:], r.sender.frameNo, r.sender.unacked, opaque(r)
 //@   ensures called(tubes.sender.write) <==> (old(r.tubeState) == tubes.initiated || old(r.tubeState) == tubes.closeWait)
 //@   ensures !called(tubes.sender.write) ==> n == 0 && err != nil
 //@   ensures called(tubes.sender.write) ==> n == resultof(tubes.sender.write, n) && err == resultof(tubes.sender.write, err)
@@ -504,6 +506,7 @@ package tubes
 //@ func (r *Reliable) Close() (err error)
 //@   property C16
 //@   atomic
+//@   modifies r.tubeState, r.lastAckTimer, r.sender.deadline, r.sender.finSent, r.sender.finFrameNo, r.sender.frameNo, r.sender.frames, r.sender.frames[:], r.sender.unacked, opaque(r)
 //@   ensures old(r.tubeState) == tubes.initiated ==> r.tubeState == tubes.finWait1 && !called(tubes.Reliable.enterLastAckState)
 //@   ensures old(r.tubeState) == tubes.closeWait ==> r.tubeState == tubes.lastAck && called(tubes.Reliable.enterLastAckState)
 //@   ensures old(r.tubeState) == tubes.initiated || old(r.tubeState) == tubes.closeWait ==> callcount(tubes.sender.sendFin) == 1 && err == resultof(tubes.sender.sendFin, err)
